@@ -28,12 +28,16 @@ out=["## 14. Detection results: seeded changes and which checks report them\n",
 "`tools/verify_seeded.sh`), and - for the `Cxx-mK` rows - comes with a demonstration that fails with the",
 "change and passes without it. The `Cxx-mK` changes were written by independent sub-agents that saw only",
 "the property text and a scratch worktree (nothing from /verif); `FIX-<commit>` rows are the reverts of the",
-"repairs of section 13. Six rounds of 36 changes were collected (two per property and round); from the second",
+"repairs of section 13. Nine rounds of 36 changes were collected (two per property and round); from the second",
 "round on the agents were told which kinds of change earlier rounds had delivered and were pointed elsewhere",
 "(the prompts are kept under tools/prompts/): round 3 interactions of two features and state carried between",
 "calls, round 4 helper functions, trait impls, prelude-name collisions, raw identifiers and boundary sizes,",
 "round 5 first-vs-later occurrences, order of checks, byte-vs-char handling and key spelling, round 6 quietly",
-"defaulted Option/Result values, string round trips and the shapes of real chain metadata. Of the 216 changes",
+"defaulted Option/Result values, string round trips and the shapes of real chain metadata, round 7 literal",
+"rendering, module layout, less-used settings, degenerate and very deep registries, round 8 the interplay of two",
+"features (a substituted type inside a generic definition, settings used twice, recursive registrations meeting",
+"instantiations), round 9 the small-scope boundary itself (changes that need at least THREE of something -",
+"instantiations, nesting levels, parameters, cycle length, fields - where one or two behave). Of the 324 changes",
 "about a quarter were NOT reported by the quick tier as it stood when they arrived; every miss was turned into",
 "a wider alphabet or a further oracle clause (sections 12.3 and 15) and re-run, which is what the table shows.",
 "Each was applied to a scratch worktree of /repo (never to /repo itself), the harness",
